@@ -2,21 +2,48 @@
 program that exercises the REAL code (built from /repo's current tree with ASan/UBSan).  A reproduced failure is appended to the
 replay file; otherwise the VIOLATION line keeps the suffix no-failing-input-found."""
 import os, re, subprocess, tempfile, shutil, itertools
+os.environ.setdefault("ASAN_OPTIONS", "detect_leaks=0")   # leaks are counted by the oracles through the hooks, not by LeakSanitizer
 HERE = os.path.dirname(os.path.abspath(__file__)); VERIF = os.path.dirname(HERE)
 REPO = os.environ.get("VERIF_REPO", "/repo")
 
+def _byte(val):
+    v = str(val).strip()
+    if len(v) >= 3 and v[0] == "'" and v[-1] == "'":
+        body = v[1:-1]
+        esc = {"\\n": 10, "\\r": 13, "\\t": 9, "\\0": 0, "\\\\": 92, "\\'": 39, '\\"': 34, "\\b": 8, "\\f": 12, "\\a": 7, "\\v": 11}
+        if body in esc:
+            return esc[body]
+        if body.startswith("\\x"):
+            return int(body[2:], 16) & 0xff
+        if body.startswith("\\") and body[1:].isdigit():
+            return int(body[1:], 8) & 0xff
+        if len(body) == 1:
+            return ord(body) & 0xff
+        return None
+    try:
+        return int(v.rstrip("ul")) & 0xff
+    except ValueError:
+        return None
+
 def candidates_from_trace(trace):
+    """byte strings read off a counterexample: (a) elements of arrays / dynamic objects assigned along the path, (b) the sequence of nondet_uchar() results"""
     objs = {}
+    seq = []
     for st in trace or []:
         lhs = st.get("lhs", "")
-        m = re.match(r"(dynamic_object(?:\$\d+)?)\[(\d+)l?\]$", lhs)
+        if lhs == "return_value_nondet_uchar":
+            b = _byte(st.get("val"))
+            if b is not None:
+                seq.append(b)
+            continue
+        m = re.match(r"([A-Za-z_][A-Za-z_0-9$]*)\[(\d+)l?\]$", lhs)
         if m:
-            try:
-                v = int(str(st.get("val", "0")).strip("ul'")) & 0xff
-            except ValueError:
-                continue
-            objs.setdefault(m.group(1), {})[int(m.group(2))] = v
+            b = _byte(st.get("val"))
+            if b is not None:
+                objs.setdefault(m.group(1), {})[int(m.group(2))] = b
     cands = []
+    if seq:
+        cands.append(bytes(seq))
     for name, d in objs.items():
         n = max(d) + 1
         if n > 4096:
@@ -63,6 +90,33 @@ def parse_family(o, r, path):
     finally:
         shutil.rmtree(work, ignore_errors=True)
 
+def minify_family(o, r, path):
+    cands = candidates_from_trace(o.get("trace"))
+    if not cands:
+        return False
+    work = tempfile.mkdtemp(prefix="vfr_")
+    try:
+        exe = build_oracle("minify_oracle.c", work)
+        if exe is None:
+            return False
+        tried = 0
+        for c in cands:
+            c = c.split(b"\x00")[0]
+            if not c:
+                continue
+            tried += 1
+            p = subprocess.run([exe, c.hex()], capture_output=True, text=True, timeout=20)
+            if p.returncode not in (0, 2):
+                with open(path, "a") as f:
+                    f.write("\nNATIVE REPLAY (real code from %s, ASan/UBSan): FAILS\n  input bytes (hex): %s\n  command: replay/minify_oracle %s\n  output:\n%s%s\n" % (REPO, c.hex(), c.hex(), p.stdout, p.stderr[-1500:]))
+                return True
+        with open(path, "a") as f:
+            f.write("\nnative replay: %d inputs derived from the counterexample were run against the real code; none failed the oracle\n" % tried)
+        return False
+    finally:
+        shutil.rmtree(work, ignore_errors=True)
+
 PARSE_UNITS = ["parse_hex4", "utf16_literal_to_utf8", "buffer_skip_whitespace", "skip_utf8_bom", "parse_number", "parse_number_plain", "parse_value",
                "cJSON_ParseWithLengthOpts", "cJSON_ParseWithOpts", "cJSON_Parse", "cJSON_ParseWithLength", "parse_string_b", "parse_array", "parse_object"]
 REPLAYERS = {u: parse_family for u in PARSE_UNITS}
+REPLAYERS["minify_b"] = minify_family
